@@ -137,6 +137,8 @@ class SimulatorCallback(StoreResultsCallback):
 
     def on_tuning_end(self):
         super().on_tuning_end()
-        # Restore ``stop_criterion``
-        self._tuner.stop_criterion = self._backup_stop_criterion
+        # Restore ``stop_criterion`` (only if it has been replaced)
+        if self._backup_stop_criterion is not None:
+            self._tuner.stop_criterion = self._backup_stop_criterion
+            self._backup_stop_criterion = None
         self._tuner = None
